@@ -25,7 +25,11 @@ const Unit = 512
 const Blk = 4096
 
 type Impl struct {
-	Dir string
+	// a replica that rejoined with its old directory keeps its OWN metadata for the snapshots up to
+	// its checkpoint (they are not transferred): the recorded per-snapshot counters are then the
+	// rejoiner's, which the model (one copy of the metadata) does not track — not observed afterwards
+	recsUnknown bool
+	Dir         string
 	S   *replica.Server
 	BS  int // units per block (8)
 	// rebuild: the other replica of the pair (the target before the swap, the source after it)
@@ -407,6 +411,9 @@ func (im *Impl) Exec(line string) (out string) {
 		r := im.rep()
 		if r == nil {
 			return "recs closed"
+		}
+		if im.recsUnknown {
+			return "recs ?"
 		}
 		act := r.VerifActive()
 		disks := r.ListDisks()
